@@ -82,8 +82,10 @@ def gen_events(rng, prog, n):
             if d.get("foreign"):
                 # back to the identical memento function it was before
                 cur["defs"][x] = d = copy.deepcopy(d["was"])
-            elif d["kind"] == "memento" and rng.random() < 0.4:
-                # a plain function of another package (memento keeps no rule for it)
+            elif d["kind"] == "memento" and rng.random() < 0.4 and not k5_prone(cur, x):
+                # a plain function of another package (memento keeps no rule for it). Names that lie on a reference cycle or
+                # are reached through an alias are left alone here: for those the switch back runs into known finding K5
+                # (directed scenarios below), and the random histories stay free of it
                 cur["defs"][x] = d = dict(kind="plain", where=d["where"], foreign=True, wrapped=False, const=0, setc=None, tup=None, dflt=None,
                                           kwd=None, lam=None, nest=None, refs=[], was=copy.deepcopy(d))
                 clones = {c: b for c, b in clones.items() if b != x}
@@ -104,6 +106,8 @@ def gen_events(rng, prog, n):
             if not al:
                 continue
             t = rng.choice(al)
+            if cur["defs"].get(cur.get("alias_map", {}).get(t, t), {}).get("foreign"):
+                continue                  # the alias is bound to an untracked function at the moment: K5
             same = [x for x in fns if cur["defs"][x]["where"] == cur["defs"][t]["where"]]
             u = rng.choice(same)
             cur.setdefault("alias_map", {})[t] = u
@@ -120,6 +124,45 @@ def gen_events(rng, prog, n):
         else:
             continue
         out.append((desc, acts, copy.deepcopy(cur), dict(clones)))
+    return out
+
+
+def k5_prone(prog, x):
+    """x is referenced from its own closure (a cycle through x) or through an alias"""
+    for d in prog["defs"].values():
+        if d["kind"] != "var" and any(t == x and form == "alias" for t, form in d["refs"]):
+            return True
+    d = prog["defs"][x]
+    if d["kind"] == "var":
+        return False
+    for t, _ in d["refs"]:
+        if t in prog["defs"] and x in vprogs.closure_all(prog, t):
+            return True
+    return False
+
+
+def k5_scenarios():
+    """KNOWN FINDING K5 (C13): a symbol that is bound to an object memento does not track (a plain function of another
+    package) when a dependent's version is computed is not watched; binding it to a tracked object afterwards is not noticed
+    until the next registration. (a) a self-recursive memento function replaced by a foreign plain function and defined
+    again: its decorator computes the version while its own name is still bound to the foreign function.
+    (b) an alias of a function that became foreign is re-bound to a memento function."""
+    f = c01._fn
+    out = []
+    foreign = lambda was: dict(kind="plain", where="mod", foreign=True, wrapped=False, const=0, setc=None, tup=None, dflt=None, kwd=None,
+                               lam=None, nest=None, refs=[], was=copy.deepcopy(was))
+    a0 = dict(defs={"m1": f("memento", [["m1", "bare"]]), "m2": f("memento", [["m1", "bare"]])}, order=["m1", "m2"])
+    a1 = copy.deepcopy(a0); a1["defs"]["m1"] = foreign(a0["defs"]["m1"])
+    a2 = copy.deepcopy(a0)
+    out.append(dict(known="K5a", note="self-recursive memento function -> foreign plain function -> identical memento function", program=a0,
+                    events=[[["switch-kind", "m1", "foreign"], c01.event_actions(a0, a1), a1, {}],
+                            [["switch-kind", "m1", "memento"], c01.event_actions(a1, a2), a2, {}]]))
+    b0 = dict(defs={"m1": f("memento", []), "m2": f("memento", [], const=2), "m3": f("memento", [["m1", "alias"]])}, order=["m1", "m2", "m3"])
+    b1 = copy.deepcopy(b0); b1["defs"]["m1"] = foreign(b0["defs"]["m1"])
+    b2 = copy.deepcopy(b1); b2["alias_map"] = {"m1": "m2"}
+    out.append(dict(known="K5b", note="alias of a function that became foreign re-bound to a memento function", program=b0,
+                    events=[[["switch-kind", "m1", "foreign"], c01.event_actions(b0, b1), b1, {}],
+                            [["rebind-alias", "m1", "m2"], [["exec", "mod", "a_m1 = m2\n"]], b2, {}]]))
     return out
 
 
@@ -459,7 +502,13 @@ def main(chk, replay=None):
         root = tempfile.mkdtemp(prefix="c13c_", dir=chk.tmpdir())
         evs = [(e[0], e[1], e[2], e[3]) for e in item["events"]]
         try:
-            fails, (mism, npairs) = scenario(item["program"], evs, root, with_model=True)
+            if item.get("known"):
+                # the code is known to deviate from the model here: the property's oracle only
+                fails, (mism, npairs) = scenario(item["program"], evs, root), ([], 0)
+                for f_ in fails:
+                    f_["known_scenario"] = item["known"]
+            else:
+                fails, (mism, npairs) = scenario(item["program"], evs, root, with_model=True)
         finally:
             shutil.rmtree(root, ignore_errors=True)
         return item["program"], evs, fails, mism, npairs
@@ -473,7 +522,7 @@ def main(chk, replay=None):
             f["events"], f["in_process"], f["fresh"]), "class": {"clause": f["clause"], "event": "define-undefined-attribute", "object": "function"},
             "raw_undefined": True, "source": RAW_UNDEF_MOD, "observed": ufails[:2]})
     corpus = json.load(open(os.path.join(os.path.dirname(os.path.abspath(__file__)), "corpus_c13.json")))
-    corpus += directed_scenarios()
+    corpus += directed_scenarios() + k5_scenarios()
     seeds = [rng.randrange(1 << 30) for _ in range(nprog)]
     with concurrent.futures.ThreadPoolExecutor(max_workers=8) as ex:
         for prog, evs, fails, mism, npairs in list(ex.map(work_corpus, corpus)) + list(ex.map(work, seeds)):
@@ -488,6 +537,8 @@ def main(chk, replay=None):
                 f = fails[0]
                 ev = f.get("event") or ["initial"]
                 cls = {"clause": f["clause"], "event": ev[0], "object": f.get("object", "function")}
+                if f.get("known_scenario"):
+                    cls.update(scenario=f["known_scenario"], fn=f.get("fn"), event_index=f.get("event_index"))
                 upto = f.get("event_index", len(evs))
                 p = chk.violation({"what": "after event %s the in-process version of %s is %s but a fresh process computes %s" % (
                     ev, f.get("fn"), f.get("in_process", f.get("got")), f.get("fresh")), "class": cls, "program": prog,
